@@ -16,6 +16,7 @@
 #include <elf.h>
 #include <fcntl.h>
 #include <algorithm>
+#include <cxxabi.h>
 
 G g;
 struct nsim_runcfg nsim_cfg;
@@ -65,6 +66,20 @@ static void load_symbols () {
 			if (ELF64_ST_TYPE (sy[k].st_info) != STT_FUNC || sy[k].st_size == 0) continue;
 			Sym s; s.lo = sy[k].st_value; s.hi = s.lo + sy[k].st_size;
 			s.name = strtab_copy + sy[k].st_name;
+			if (s.name[0] == '_' && s.name[1] == 'Z') {
+				// C++ configuration: report the same names as the C builds (drop namespace and parameter list)
+				int status = 0;
+				char *dm = abi::__cxa_demangle (s.name, NULL, NULL, &status);
+				if (dm && status == 0) {
+					char *paren = strchr (dm, '(');
+					if (paren) *paren = 0;
+					char *base = dm;
+					if (strncmp (base, "nsync::", 7) == 0) base += 7;
+					if (strncmp (base, "(anonymous namespace)::", 23) == 0) base += 23;
+					s.name = strdup (base);
+				}
+				free (dm);
+			}
 			symtab.push_back (s);
 		}
 	}
@@ -198,7 +213,7 @@ extern "C" int nsim_choose (int kind, int n) {
 extern "C" long long nsim_run_index (void) { return g.run_index; }
 extern "C" void nsim_gen_reseed (uint64_t key) { g.gen_rng = rt_mix (g.base_seed ^ 0x67656e, key); }
 extern "C" void nsim_set_prio (int tid, int prio) { if (tid >= 0 && tid < NSIM_MAXSLOTS) g.pol.prio[tid] = prio; }
-extern "C" int nsim_alloc_failures (void) { return g.alloc_failures; }
+extern "C" int nsim_alloc_failures (void) { return g.cur ? g.cur->alloc_failures : 0; }
 extern "C" unsigned nsim_gen (unsigned n) {
 	if (n <= 1) return 0;
 	return rnd (g.gen_rng, n);
@@ -262,6 +277,13 @@ static void report_access (int cls, const char *what, Fibre *f, uintptr_t pc, ui
 static inline void shadow_access (uintptr_t addr, int size, int kind, uintptr_t pc) {
 	Fibre *f = g.cur;
 	if (!f || !g.in_run) return;
+	if (++g.plain_since_sched > 20000000) {
+		char a[256];
+		g.plain_since_sched = 0;
+		describe_stack (f, pc, a, sizeof a);
+		rt_violation (NULL, V_NO_PROGRESS, "runaway", "20M memory accesses without reaching a synchronisation operation (unbounded loop) in %s", a);
+		end_run (RV_VIOLATION);
+	}
 	Region *r = region_of (addr);
 	if (!r) return;
 	if (addr == g.suppress_addr) return;
@@ -314,7 +336,7 @@ static inline void shadow_access (uintptr_t addr, int size, int kind, uintptr_t 
 		}
 	}
 	// C19: between a failed constructor allocation and the constructor's return nothing that already exists may be written
-	if (kind == 1 && g.no_write_window && r->kind == REG_ARENA) {
+	if (kind == 1 && f->no_write_window && r->kind == REG_ARENA) {
 		char a[256];
 		describe_stack (f, pc, a, sizeof a);
 		rt_violation ("C19", V_ORACLE, "write-after-failed-alloc", "store to existing object at 0x%lx after the constructor's allocation failed, in %s", (unsigned long) addr, a);
@@ -495,6 +517,7 @@ static bool all_done () {
 static void schedule (bool cur_can_continue, bool is_yield) {
 	Fibre *cur = g.cur;
 	g.steps++;
+	g.plain_since_sched = 0;
 	g.now += TICK_NS;
 	if (!g.draining && g.steps > g.B1) {
 		g.draining = true;
@@ -507,11 +530,11 @@ static void schedule (bool cur_can_continue, bool is_yield) {
 	if (is_yield) g.spin_yields++;
 	fire_fault_timers (false);
 	// F6: clock jump choice while timed waits are pending
-	if (!g.draining && g.pol.p_jump > 0) {
+	if (!g.draining) {      // (always a recorded choice, so that a choice list does not depend on the policy that produced it)
 		int64_t ed = earliest_deadline ();
 		if (ed != INT64_MAX && ed > g.now) {
 			int sv = 0;
-			if (!g.replay_mode && rnd_p (g.rng, g.pol.p_jump)) sv = 1 + rnd (g.rng, 3);
+			if (!g.replay_mode && g.pol.p_jump > 0 && rnd_p (g.rng, g.pol.p_jump)) sv = 1 + rnd (g.rng, 3);
 			int v = take_choice (CH_CLOCK, 4, sv);
 			if (v == 1) g.now = ed - 1;
 			else if (v == 2) g.now = ed;
@@ -752,7 +775,7 @@ extern "C" void nsim_op_end (void) {
 		shadow_access (f->min_sp, f->op_sp_top - f->min_sp, 4, 0);
 		f->min_sp = f->op_sp_top;
 	}
-	g.no_write_window = 0;
+	f->no_write_window = 0;
 	g.progress_mark = g.steps; g.spin_yields = 0;
 	sched_point ();
 }
@@ -1110,6 +1133,14 @@ int64_t rt_cpp_now () {     // for std::chrono::system_clock::now() in the C++ c
 	return v;
 }
 bool rt_in_run () { return g.in_run && g.cur; }
+extern "C" int64_t nsim_sys_cpp_now (void) {      // std::chrono::system_clock::now() of the simulated code (ns since the epoch)
+	if (!g.in_run || !g.cur) {
+		struct timespec ts;
+		::clock_gettime (CLOCK_REALTIME, &ts);
+		return (int64_t) ts.tv_sec * 1000000000LL + ts.tv_nsec;
+	}
+	return rt_cpp_now ();
+}
 extern "C" int nsim_sys_sched_yield (void) {
 	if (!g.in_run || !g.cur) return ::sched_yield ();
 	g.nyields++;
@@ -1140,7 +1171,8 @@ extern "C" void *nsim_sys_malloc (size_t n) {
 			TRACE ("malloc fails (injected)");
 			if (nsim_cfg.fail_alloc_index > 0) g.faults_fired[CH_F_ALLOC]++;
 			g.alloc_failures++;
-			g.no_write_window = 1;
+			g.cur->alloc_failures++;
+			g.cur->no_write_window = 1;
 			sched_point ();
 			return NULL;
 		}
@@ -1309,6 +1341,16 @@ extern "C" int nsim_sys_pthread_cond_signal (pthread_cond_t *c) {
 
 // ------------------------------------------------------------------------------------------
 // Crash handling
+static void on_alarm (int sig) {
+	(void) sig;
+	if (!g.in_run || !g.cur) return;
+	rt_violation (NULL, V_NO_PROGRESS, "watchdog", "run exceeded the wall-clock watchdog without ending (loop without scheduling points)");
+	g.tainted = 1;
+	g.verdict = RV_VIOLATION;
+	g.in_run = false;
+	g.cur = NULL;
+	setcontext (&g.main_ctx);
+}
 static void on_crash (int sig, siginfo_t *si, void *uc) {
 	(void) uc;
 	if (!g.in_run || !g.cur) {
@@ -1357,6 +1399,11 @@ void rt_init () {
 	sigaction (SIGBUS, &sa, NULL);
 	sigaction (SIGILL, &sa, NULL);
 	sigaction (SIGFPE, &sa, NULL);
+	struct sigaction sal;
+	memset (&sal, 0, sizeof sal);
+	sal.sa_handler = on_alarm;
+	sal.sa_flags = SA_ONSTACK | SA_NODEFER;
+	sigaction (SIGALRM, &sal, NULL);
 	g.stamp = 1;
 	g.B1 = 30000; g.B2 = 300000;
 	// the one deliberate suppression: waiter_for_thread is an ordinary static without TLS
@@ -1413,7 +1460,7 @@ void rt_reset_run (uint64_t seed) {
 	g.spin_yields = 0; g.progress_mark = 0;
 	g.guard_block = 0;
 	g.panic_msg[0] = 0;
-	g.alloc_failures = 0; g.no_write_window = 0;
+	g.alloc_failures = 0; g.no_write_window = 0; g.plain_since_sched = 0;
 	g.rng = rt_mix (seed, 0x5eed);
 	g.gen_rng = rt_mix (seed, 0x6e6e);
 	memset (&nsim_cfg, 0, sizeof nsim_cfg);
@@ -1428,6 +1475,7 @@ int rt_run (const struct nsim_family *fam) {
 	g.verdict = -1;
 	g.in_run = true;
 	volatile int started = 0;
+	alarm (20);
 	getcontext (&g.main_ctx);
 	if (!started) {
 		started = 1;
@@ -1437,5 +1485,6 @@ int rt_run (const struct nsim_family *fam) {
 	}
 	g.in_run = false;
 	g.cur = NULL;
+	alarm (0);
 	return g.verdict;
 }
